@@ -37,6 +37,8 @@ func main() {
 		cmdDeterminism(*seed, *n, *out, *replay, *tier)
 	case "outcodec":
 		cmdOutcodec(*seed, *n, *out, *replay, *tier)
+	case "codecs16":
+		cmdCodecs16(*seed, *n, *out, *replay, *tier)
 	case "agg":
 		cmdAgg(*seed, *n, *out, *replay, *kinds, *tier)
 	default:
